@@ -369,6 +369,8 @@ class Host(object):
                 self.model.pop(path, None)   # state unknown from here on
             return False
         if not wrote:
+            if verdict == "must_write":
+                self.__dict__.setdefault("unwritten", []).append(path)
             if verdict == "must_write" and "model" in self.oracles:
                 res.violate("SAVE-REFUSED:%s%s" % (want, "+append" if append else ""),
                             "%s: save should have happened (%s) but the file is unchanged; stdout=%r" % (
@@ -396,6 +398,15 @@ class Host(object):
             res.stats["probe:append_kept_old_files"] += 1
         return True
 
+    def check_saved_elsewhere(self, r, k):
+        """A target that had to be written was left alone, the command reports nothing wrong, and a new file appeared
+        beside the targets: the image went to the wrong place."""
+        unwritten, beside = self.__dict__.get("unwritten", []), self.__dict__.get("new_beside", [])
+        if unwritten and beside and r.status == 0 and not r.crashed:
+            self.res.violate("SAVED-ELSEWHERE", "%s had to be written and was not, exit status 0, and %s appeared instead" % (
+                unwritten[0], beside[0]), k)
+        self.unwritten, self.new_beside = [], []
+
     def check_wrote_elsewhere(self, r, snapshot, targets, k):
         """No invocation may create or modify a host file other than the targets it was given."""
         byproducts = self.__dict__.setdefault("byproducts", set())
@@ -416,6 +427,7 @@ class Host(object):
         for path in sorted(set(after) - set(snapshot)):
             if path not in targets:
                 byproducts.add(path)
+                self.__dict__.setdefault("new_beside", []).append(path)
                 self.res.stats["new_file_beside_the_targets_not_judged"] += 1
 
     # -- ops ---------------------------------------------------------------------------------
@@ -443,6 +455,7 @@ class Host(object):
         res = self.res
         w = self.w
         lines = op["lines"]
+        self.unwritten, self.new_beside = [], []
         srcpath = op.get("srcpath", "src.asm")         # e.g. proj/src.asm: output paths stay relative to the working directory
         w.put(posixpath.normpath(srcpath), "".join(lines).encode(), who="SETUP")
         ref = self.assemble_reference(lines)
@@ -559,6 +572,7 @@ class Host(object):
                                     read_fault=(fault_path == path) or unstorable)
             if wrote and "content" in self.oracles:
                 self.check_c11(path, kind, new_file, ref, lines, k)
+        self.check_saved_elsewhere(r, k)
         return r, ref
 
     def judge_shared_target(self, r, op, path, before, ref, new_file, k, unstorable=False):
@@ -648,6 +662,7 @@ class Host(object):
         res = self.res
         w = self.w
         src, want = op["src"], op["to"]
+        self.unwritten, self.new_beside = [], []
         args = [src, "--to_" + want, op["dst"]]
         dst = posixpath.normpath(op["dst"])
         also = [dict(a, dst=posixpath.normpath(a["dst"]), spelled=a["dst"]) for a in op.get("also", [])
@@ -743,6 +758,7 @@ class Host(object):
                 failed = True
         if also:
             res.stats["probe:several_targets_in_one_invocation"] += 1
+        self.check_saved_elsewhere(r, k)
         return r
 
     def op_vf(self, op, k):
